@@ -32,6 +32,7 @@ package ggql
 //@ -- the argument vector handed to the reflected method: either errors and no call, or a vector that meets the
 //@ -- preconditions of reflect.Value.Call for a callee of type mt whose receiver accepts ov
 //@ func (*Root).formReflectArgs
+//@   check accumulate {C06}
 //@   props C03 C11
 //@   check panic {C03}
 //@   check frame {C11}
